@@ -6,4 +6,5 @@ INVARIANT C20_KeysOnce
 INVARIANT C20_UnionOfMembers
 INVARIANT C20_FirstWins
 INVARIANT C20_AddingTwiceChangesNothing
+INVARIANT C20_LiveMemberCovered
 CHECK_DEADLOCK FALSE
